@@ -23,6 +23,8 @@ Inductive dur := DNone | DWake (d : N) | DWinch (d : N).
 Inductive act :=
 | AWake (n : N) | AIn (toks : list N) | AWinch | ATerm | AWrite (len : N) | APause (b : bool) | AHup
 | AFault (n : N)     (* the next n writes to the tty fail with EAGAIN although select reports it writable *)
+| ASettled           (* end of a generated script, after more zero-timeout polls than events could still come:
+                        nothing may be owed any more (no move of the model) *)
 | APoll (tmo : option N) (send pending elapsed : N) (during : dur) (spins : N).
   (* observed after the poll: stats.send, frames_pending(), wall-clock milliseconds, and how many of
      the scripted EAGAIN failures the poll ran into *)
@@ -132,7 +134,7 @@ Fixpoint model_run (s : st) (paused : bool) (acts : list act) (obs : list pobs) 
           model_run (upd_io s (mkT (write (tq t) (N.iter len (cons 0) [])) (tty t) (sent t)))
                     paused rest obs
       | AHup => model_run (arrive s MHup) paused rest obs
-      | AFault _ => model_run s paused rest obs
+      | AFault _ | ASettled => model_run s paused rest obs
       | APause b => model_run s b rest obs
       | APoll tmo send pending _ du spins =>
           match obs with
@@ -188,16 +190,19 @@ Definition nothing_outstanding (o : outstanding) : bool :=
   negb (o_wake o) && negb (o_winch o) && negb (o_term o)
   && match o_keys o with [] => true | _ => false end.
 
-Definition slack : N := 1000.       (* milliseconds of scheduling noise tolerated on a loaded machine *)
+(* scheduling noise tolerated, in milliseconds: a quarter of the scripted wait plus 250 (the harness
+   runs a late session again, twice at most, so only lateness that repeats gets here) *)
+Definition slack : N := 250.
+Definition within (scripted elapsed : N) : bool := elapsed <=? scripted + scripted / 4 + slack.
 
 (* wake_owed: a wake request is outstanding when the poll is entered.  Only wake requests bound an
    infinite poll unconditionally; other events are returned once the output has been flushed *)
 Definition timely (tmo : option N) (du : dur) (wake_owed : bool) (elapsed : N) : bool :=
   match tmo, du with
-  | Some ms, _ => elapsed <=? ms + slack                      (* a finite poll returns by its timeout *)
-  | None, DWake d | None, DWinch d => elapsed <=? d + slack   (* the request ends the infinite poll
+  | Some ms, _ => within ms elapsed                           (* a finite poll returns by its timeout *)
+  | None, DWake d | None, DWinch d => within d elapsed        (* the request ends the infinite poll
                                                                  (DWinch is scripted with no output stalled) *)
-  | None, DNone => if wake_owed then elapsed <=? slack else true
+  | None, DNone => if wake_owed then within 0 elapsed else true
   end.
 
 Definition owes (o : outstanding) : bool := negb (nothing_outstanding o).
@@ -214,6 +219,7 @@ Fixpoint spec_run (o : outstanding) (hup : bool) (acts : list act) (obs : list p
       | AWrite _ | APause _ => spec_run o hup rest obs
       | AHup => spec_run o true rest obs
       | AFault _ => spec_run o hup rest obs
+      | ASettled => (nothing_outstanding o || hup) && spec_run o hup rest obs
       | APoll tmo _ _ elapsed du spins =>
           let owed_at_entry := o_wake o in
           (* a request issued while the thread sits in the poll is owed like any other *)
